@@ -394,3 +394,121 @@ func VerifC03Local() {
 	}
 	nd.Reach("end")
 }
+
+// VerifC03KeyShapes: index key shapes the step harness does not draw. Table (p, s) with two GSIs: "inv", whose
+// key attributes are the table's own key attributes in the other order (hash s, range p: every item is in it
+// from the moment it exists, however it was created), and "gx" on attribute g whose values are 1..2 bytes long
+// (one index key may be a proper prefix of another, with the primary keys in either order). n items, each
+// created by PutItem or by an UpdateItem upsert; then Scan and Query through both indexes and the counts
+// reported by DescribeTable must mirror the table.
+func VerifC03KeyShapes() {
+	n := nd.Param("n", 2)
+	c := vClient(true)
+	nd.Assert(AddIndex(vCtx, c, vTbl, "inv", "s", "p") == nil, "setup-addindex-inv")
+	nd.Assert(AddIndex(vCtx, c, vTbl, "gx", "g", "") == nil, "setup-addindex-gx")
+	m := &vModel{withRange: true}
+	for i := 0; i < n; i++ {
+		nm := "k" + string(rune('0'+i))
+		k := vKey{p: nd.StringN(nm+".p", 1), s: nd.StringN(nm+".s", 1)}
+		attrs := map[string]string{}
+		if nd.Choice(nm+".hasg", 2) == 1 {
+			attrs["g"] = vKeyStr(nm+".g", 2)
+		}
+		if nd.Choice(nm+".created-by-update", 2) == 1 {
+			nd.Reach("upsert")
+			in := &dynamodb.UpdateItemInput{TableName: aws.String(vTbl), Key: k.item(true), UpdateExpression: aws.String("SET v = :v"), ExpressionAttributeValues: vItem{":v": vS("v")}}
+			if g, ok := attrs["g"]; ok {
+				in.UpdateExpression, in.ExpressionAttributeValues = aws.String("SET v = :v, g = :g"), vItem{":v": vS("v"), ":g": vS(g)}
+			}
+			_, err := c.UpdateItem(vCtx, in)
+			nd.Assert(err == nil, "C03-shapes-upsert-noerr")
+			// an upsert onto a stored item keeps the attributes it does not name
+			old, _ := m.get(k)
+			na := map[string]string{"v": "v"}
+			if g, ok := old["g"]; ok {
+				na["g"] = g
+			}
+			if g, ok := attrs["g"]; ok {
+				na["g"] = g
+			}
+			m.put(k, na)
+		} else {
+			attrs["v"] = "v"
+			nd.Assert(vPut(c, m.full(k, attrs)) == nil, "C03-shapes-put-noerr")
+			m.put(k, attrs)
+		}
+	}
+	check := func(idx, hashAttr string, in func(r vRow) (string, bool), id string) {
+		want := 0
+		for _, r := range m.rows {
+			if _, ok := in(r); ok {
+				want++
+			}
+		}
+		out, err := c.Scan(vCtx, &dynamodb.ScanInput{TableName: aws.String(vTbl), IndexName: aws.String(idx)})
+		nd.Assert(err == nil, id+"-scan-noerr")
+		if err != nil {
+			return
+		}
+		nd.Assert(len(out.Items) == want && int(out.Count) == want, id+"-index-scan-size")
+		for _, r := range m.rows {
+			cnt := 0
+			for _, it := range out.Items {
+				if j := vFindRow(m, it); j >= 0 && m.rows[j].k.eq(r.k, true) {
+					cnt++
+					nd.Assert(vSameItem(it, m.full(r.k, r.attrs)), id+"-index-scan-current-values")
+				}
+			}
+			hv, ok := in(r)
+			if !ok {
+				nd.Assert(cnt == 0, id+"-index-scan-sparse")
+				continue
+			}
+			nd.Assert(cnt == 1, id+"-index-scan-has-item-once")
+			q, qerr := c.Query(vCtx, &dynamodb.QueryInput{TableName: aws.String(vTbl), IndexName: aws.String(idx),
+				KeyConditionExpression: aws.String(hashAttr + " = :h"), ExpressionAttributeValues: vItem{":h": vS(hv)}})
+			nd.Assert(qerr == nil, id+"-query-noerr")
+			if qerr != nil {
+				continue
+			}
+			wantQ, found := 0, 0
+			for _, r2 := range m.rows {
+				if h2, ok2 := in(r2); ok2 && h2 == hv {
+					wantQ++
+				}
+			}
+			for _, it := range q.Items {
+				if j := vFindRow(m, it); j >= 0 && m.rows[j].k.eq(r.k, true) {
+					found++
+				}
+			}
+			nd.Assert(len(q.Items) == wantQ && found == 1, id+"-index-query-exact")
+		}
+		d, derr := c.DescribeTable(vCtx, &dynamodb.DescribeTableInput{TableName: aws.String(vTbl)})
+		nd.Assert(derr == nil, id+"-describe-noerr")
+		if derr == nil {
+			ok := false
+			for _, g := range d.Table.GlobalSecondaryIndexes {
+				if aws.ToString(g.IndexName) == idx {
+					ok = g.ItemCount != nil && int(*g.ItemCount) == want
+				}
+			}
+			nd.Assert(ok, id+"-describe-index-count")
+		}
+	}
+	check("inv", "s", func(r vRow) (string, bool) { return r.k.s, true }, "C03-inverted")
+	check("gx", "g", func(r vRow) (string, bool) { g, ok := r.attrs["g"]; return g, ok }, "C03-prefix")
+	// the inverted index orders each of its partitions by the table's hash key
+	if len(m.rows) == 2 && m.rows[0].k.s == m.rows[1].k.s {
+		nd.Reach("shared-inverted-partition")
+		q, err := c.Query(vCtx, &dynamodb.QueryInput{TableName: aws.String(vTbl), IndexName: aws.String("inv"),
+			KeyConditionExpression: aws.String("s = :h"), ExpressionAttributeValues: vItem{":h": vS(m.rows[0].k.s)}})
+		if err == nil && len(q.Items) == 2 {
+			a, _ := vGetS(q.Items[0], "p")
+			b, _ := vGetS(q.Items[1], "p")
+			nd.Assert(a < b, "C03-inverted-ordered-by-its-range-key")
+		}
+	}
+	vInvariant(c, "C03-shapes")
+	nd.Reach("end")
+}
